@@ -68,6 +68,7 @@ def run(ctx):
     distinct = set()
     samples = []
     to_certify = []
+    pending = []
     for r in results:
         if r["gerr"]:
             continue
@@ -98,8 +99,9 @@ def run(ctx):
                 else:
                     st["forest_ok_checked"] += 1
                     if fok.get((id(r), w)) != 1:
-                        ctx.violation("forest_ok fails: the returned forest contains a tree that is not a "
-                                      "derivation of the input", dict(rep, forest=c["nodes"]), key="invalid-tree")
+                        pending.append(("invalid-tree", r, c, dict(rep, forest=c["nodes"]),
+                                        "forest_ok fails: the returned forest contains a tree that is not a "
+                                        "derivation of the input"))
                     elif len(samples) < 3 and c.get("solutions", 0) > 1 and len(c["nodes"]) < 14:
                         samples.append(dict(rep, forest=c["nodes"], solutions=c["solutions"]))
                 if not sent:
@@ -134,10 +136,28 @@ def run(ctx):
         start = r["grammar"][0][1][0][1]
         if ok == 1 and prod[0] == start and tok_chain_ok(refparse.leaves_of_shape(t), c["rx"],
                                                            glrcases.sk_ws(w), len(w)):
-            ctx.violation("GLR raises SyntaxError on a sentence (derivation certified by tree_ok)",
-                          dict(rep, derivation=refparse.shape_to_sx(t)), key="false-reject")
+            pending.append(("false-reject", r, c, dict(rep, derivation=refparse.shape_to_sx(t)),
+                            "GLR raises SyntaxError on a sentence (derivation certified by tree_ok)"))
         else:
             ctx.violation("reference derivation failed certification", rep, no_input=True, key="ref-bad")
+    # genuine failures: instance of a listed known finding iff the frozen baseline implementation
+    # behaves identically on the same grammar, table kind and input
+    if pending:
+        bjobs = [(r["gname"], r["gtext"], [c["input"]], r["opts"]) for (_, r, c, _, _) in pending]
+        bres = common.baseline_run("lib.glrcases", "worker", bjobs)
+        kfs = {e["id"] for e in ctx.kf}
+        for i, (kind, r, c, rep, what) in enumerate(pending):
+            same = False
+            if bres is not None and not bres[i]["gerr"] and bres[i]["cases"]:
+                bc = bres[i]["cases"][0]
+                same = bc["status"] == c["status"] and bc.get("nodes") == c.get("nodes")
+            kf = "KF-C01-glr-false-reject" if kind == "false-reject" else "KF-C01-glr-invalid-tree-overlap"
+            if same and kf in kfs:
+                st["known_" + kind] = st.get("known_" + kind, 0) + 1
+                ctx.known_finding(kf, "%s; first seen: grammar %r (%s) input %r"
+                                  % (what[:60], r["gtext"], "LALR" if r["opts"]["tables"] else "SLR", c["input"]))
+            else:
+                ctx.violation(what, rep, key=kind)
     return {
         "evaluations": st["inputs"],
         "distinct_nontrivial": len(distinct),
